@@ -1,0 +1,177 @@
+//go:build verif
+
+// Contracts for the slog handler (handler.go), read by /verif/govc. Comment-only.
+
+package zapslog
+
+// ---------------------------------------------------------------------------
+// level mapping: monotone, onto the four zap levels slog can express
+
+//@ spec func slogLevel(l int) zapcore.Level = l >= 8 ? 2 : (l >= 4 ? 1 : (l >= 0 ? 0 : -1))
+
+//@ func exp/zapslog.convertSlogLevel
+//@   props C18
+//@   flags nopanic
+//@   modifies nothing
+//@   ensures result == slogLevel(l)
+
+//@ lemma slog_level_monotone
+//@   props C18
+//@   ensures forall a int, b int :: a <= b ==> slogLevel(a) <= slogLevel(b)
+
+// A record is handled if and only if the core enables the mapped level.
+//@ func (*exp/zapslog.Handler).Enabled
+//@   props C18
+//@   flags nopanic
+//@   requires h != nil && h.core != nil
+//@   modifies nothing
+//@   ensures result == enabled(h.core, slogLevel(level))
+
+// ---------------------------------------------------------------------------
+// attribute conversion by kind
+
+// slog kinds (log/slog.Kind): Any 0, Bool 1, Duration 2, Float64 3, Int64 4, String 5, Time 6,
+// Uint64 7, Group 8, LogValuer 9. The empty attribute and a group without attributes are skipped;
+// a group with an empty key is inlined; a LogValuer is resolved first.
+//@ func exp/zapslog.convertAttrToField
+//@   props C18
+//@   flags nopanic
+//@   modifies $user
+//@   ensures wfEnc(result)
+//@   ensures slog.Attr.Equal(attr, zero(type(slog.Attr))) ==> result.Type == 27
+//@   ensures !slog.Attr.Equal(attr, zero(type(slog.Attr))) && slog.Value.Kind(attr.Value) == 1 ==> result.Type == 4 && result.Key == attr.Key && (result.Integer == 1 <==> slog.Value.Bool(attr.Value))
+//@   ensures !slog.Attr.Equal(attr, zero(type(slog.Attr))) && slog.Value.Kind(attr.Value) == 2 ==> result.Type == 8 && result.Key == attr.Key && result.Integer == slog.Value.Duration(attr.Value)
+//@   ensures !slog.Attr.Equal(attr, zero(type(slog.Attr))) && slog.Value.Kind(attr.Value) == 3 ==> result.Type == 9 && result.Key == attr.Key
+//@   ensures !slog.Attr.Equal(attr, zero(type(slog.Attr))) && slog.Value.Kind(attr.Value) == 4 ==> result.Type == 11 && result.Key == attr.Key && result.Integer == slog.Value.Int64(attr.Value)
+//@   ensures !slog.Attr.Equal(attr, zero(type(slog.Attr))) && slog.Value.Kind(attr.Value) == 5 ==> result.Type == 15 && result.Key == attr.Key && result.String == slog.Value.String(attr.Value)
+//@   ensures !slog.Attr.Equal(attr, zero(type(slog.Attr))) && slog.Value.Kind(attr.Value) == 6 ==> (result.Type == 16 || result.Type == 17) && result.Key == attr.Key
+//@   ensures !slog.Attr.Equal(attr, zero(type(slog.Attr))) && slog.Value.Kind(attr.Value) == 7 ==> result.Type == 18 && result.Key == attr.Key && result.Integer == int64(slog.Value.Uint64(attr.Value))
+//@   ensures !slog.Attr.Equal(attr, zero(type(slog.Attr))) && slog.Value.Kind(attr.Value) == 8 && len(slog.Value.Group(attr.Value)) == 0 ==> result.Type == 27
+//@   ensures !slog.Attr.Equal(attr, zero(type(slog.Attr))) && slog.Value.Kind(attr.Value) == 8 && len(slog.Value.Group(attr.Value)) > 0 ==> result.Type == (attr.Key == "" ? 28 : 2) && result.Key == attr.Key && typeof(result.Interface) == type(groupObject) && as(result.Interface, type(groupObject)) == slog.Value.Group(attr.Value)
+
+// A group attribute marshals its attributes, converted the same way, in order.
+//@ func (exp/zapslog.groupObject).MarshalLogObject
+//@   props C18
+//@   refines zapcore.ObjectMarshaler.MarshalLogObject
+//@   flags nopanic propagates-panics
+//@   requires enc != nil && encObj(enc)
+//@   track CV = call exp/zapslog.convertAttrToField
+//@   track AT = call (zapcore.Field).AddTo
+//@   modifies $user, fields(zapcore.jsonEncoder), buffer.Buffer.bs, comp(E:uint8), fields(zapcore.errArrayElem), fields(zapcore.sliceArrayEncoder)
+//@   ensures encObj(enc) && encFrame(enc) && result == nil
+//@   ensures #CV == len(gs) && #AT == len(gs)
+//@   ensures forall k int :: 0 <= k && k < len(gs) ==> AT.recv[k] == CV.ret0[k]
+//@   loop 1 invariant 0 <= $idx && $idx <= len(gs) && #CV == $idx && #AT == $idx && encObj(enc) && encFrame(enc)
+//@   loop 1 invariant forall k int :: 0 <= k && k < $idx ==> AT.recv[k] == CV.ret0[k]
+
+// ---------------------------------------------------------------------------
+// derivation: WithGroup / WithAttrs never write the receiver or anything it shares
+
+//@ func (*exp/zapslog.Handler).appendGroups
+//@   props C18
+//@   flags nopanic
+//@   requires h != nil
+//@   modifies fields(zapcore.Field)
+//@   ensures len(result) == len(fields) + len(h.groups)
+//@   ensures forall k int :: 0 <= k && k < len(fields) ==> result[k] == old(fields[k])
+//@   ensures forall k int :: 0 <= k && k < len(h.groups) ==> result[len(fields) + k].Type == 24 && result[len(fields) + k].Key == h.groups[k]
+//@   ensures arr(result) == arr(fields) || fresh(result)
+//@   loop 1 invariant 0 <= $idx && $idx <= len(h.groups) && len(fields) == len(param(fields)) + $idx
+//@   loop 1 invariant forall k int :: 0 <= k && k < len(param(fields)) ==> fields[k] == old(param(fields)[k])
+//@   loop 1 invariant forall k int :: 0 <= k && k < $idx ==> fields[len(param(fields)) + k].Type == 24 && fields[len(param(fields)) + k].Key == h.groups[k]
+//@   loop 1 invariant arr(fields) == arr(param(fields)) || fresh(fields)
+
+// WithGroup: the empty name opens no group (the receiver is returned); otherwise the clone's
+// pending groups are the receiver's followed by the new one, in a slice of its own - the
+// receiver and its slice (which siblings may share) are not written.
+//@ func (*exp/zapslog.Handler).WithGroup
+//@   props C18 C07 C09
+//@   flags nopanic
+//@   requires h != nil
+//@   modifies nothing
+//@   ensures group == "" ==> typeof(result) == type(*Handler) && as(result, type(*Handler)) == h
+//@   ensures group != "" ==> typeof(result) == type(*Handler) && fresh(as(result, type(*Handler))) && fresh(as(result, type(*Handler)).groups)
+//@   ensures group != "" ==> len(as(result, type(*Handler)).groups) == len(h.groups) + 1 && as(result, type(*Handler)).groups[len(h.groups)] == group
+//@   ensures group != "" ==> forall k int :: 0 <= k && k < len(h.groups) ==> as(result, type(*Handler)).groups[k] == h.groups[k]
+//@   ensures group != "" ==> as(result, type(*Handler)).core == h.core && as(result, type(*Handler)).name == h.name && as(result, type(*Handler)).addCaller == h.addCaller && as(result, type(*Handler)).addStackAt == h.addStackAt && as(result, type(*Handler)).callerSkip == h.callerSkip
+//@   ensures *h == old(*h)
+//@   ensures elems_frame(type(string), zero(type([]string)))
+
+// WithAttrs (C18, C07): every attribute is converted, in order; the pending groups are emitted as
+// namespaces once, before the first field that is not skipped; the derived handler gets the
+// wrapped core's With(fields) and drops the pending groups exactly when they were emitted; the
+// receiver is not written.
+//@ func (*exp/zapslog.Handler).WithAttrs
+//@   props C18 C07
+//@   flags nopanic
+//@   requires h != nil && h.core != nil
+//@   track CV = call exp/zapslog.convertAttrToField
+//@   track AG = call (*exp/zapslog.Handler).appendGroups
+//@   track W = invoke zapcore.Core.With
+//@   modifies $user, comp(E:uint8), comp(E:zapcore.Core), fields(zapcore.Field)
+//@   ensures typeof(result) == type(*Handler) && fresh(as(result, type(*Handler)))
+//@   ensures #CV == len(attrs) && (forall k int :: 0 <= k && k < len(attrs) ==> CV.arg0[k] == old(attrs[k]))
+//@   ensures #AG <= 1 && (#AG == 1 ==> len(old(h.groups)) > 0)
+//@   ensures #W == 1 && W.recv[0] == old(h.core) && as(result, type(*Handler)).core == W.ret0[0]
+//@   ensures len(W.arg0[0]) == len(attrs) + (#AG == 1 ? len(old(h.groups)) : 0)
+//@   ensures #AG == 1 ==> len(as(result, type(*Handler)).groups) == 0
+//@   ensures #AG == 0 ==> as(result, type(*Handler)).groups == old(h.groups)
+//@   ensures as(result, type(*Handler)).name == old(h.name) && as(result, type(*Handler)).addCaller == old(h.addCaller) && as(result, type(*Handler)).addStackAt == old(h.addStackAt) && as(result, type(*Handler)).callerSkip == old(h.callerSkip)
+//@   ensures *h == old(*h)
+//@   ensures elems_frame(type(string), zero(type([]string)))
+//@   loop 1 invariant 0 <= $idx && $idx <= len(attrs)
+//@   loop 1 invariant #CV == $idx && #W == 0
+//@   loop 1 invariant 0 <= #AG && #AG <= 1 && (addedNamespace <==> #AG == 1)
+//@   loop 1 invariant #AG == 1 ==> len(h.groups) > 0
+//@   loop 1 invariant forall k int :: 0 <= k && k < $idx ==> CV.arg0[k] == old(attrs[k])
+//@   loop 1 invariant forall k int :: 0 <= k && k < len(attrs) ==> attrs[k] == old(attrs[k])
+//@   loop 1 invariant len(fields) == $idx + (#AG == 1 ? len(h.groups) : 0)
+//@   loop 1 invariant *h == old(*h) && elems_frame(type(string), zero(type([]string)))
+
+//@ iface exp/zapslog.HandlerOption.apply
+//@   params h
+//@   modifies *h, $user
+
+//@ func exp/zapslog.NewHandler
+//@   props C18
+//@   flags nopanic
+//@   requires core != nil && (forall k int :: 0 <= k && k < len(opts) ==> opts[k] != nil)
+//@   modifies $user
+//@   ensures fresh(result)
+//@   loop 1 invariant 0 <= $idx && $idx <= len(opts) && fresh(h) && type_frame(type(Handler))
+
+// The per-attribute function of Handle: converts the attribute, emits the pending groups once
+// before the first field that is not skipped, appends the field, and asks for the next attribute.
+//@ func (*exp/zapslog.Handler).Handle$1
+//@   props C18
+//@   flags nopanic
+//@   requires *h != nil
+//@   track CV = call exp/zapslog.convertAttrToField
+//@   track AG = call (*exp/zapslog.Handler).appendGroups
+//@   modifies $user, *fields, *addedNamespace, fields(zapcore.Field)
+//@   ensures result && #CV == 1 && CV.arg0[0] == attr && #AG <= 1
+//@   ensures #AG == 1 <==> (!old(*addedNamespace) && len((*h).groups) > 0 && (CV.ret0[0].Type != 27 || CV.ret0[0].Key != "" || CV.ret0[0].Integer != 0 || CV.ret0[0].String != "" || CV.ret0[0].Interface != nil))
+//@   ensures *addedNamespace == (old(*addedNamespace) || #AG == 1)
+//@   ensures len(*fields) == old(len(*fields)) + 1 + (#AG == 1 ? len((*h).groups) : 0)
+//@   ensures (*fields)[len(*fields) - 1] == CV.ret0[0]
+
+// Handle (C18, C05, C15): the entry carries the mapped level, the record's time and message and the
+// handler's name; it is written exactly when the core's Check accepts it (a nil checked entry
+// means nothing else happens); the caller is taken from the PC slog recorded, when enabled; a
+// stack trace is attached exactly from the configured slog level upward, skipping 3 frames plus
+// the configured skip.
+//@ func (*exp/zapslog.Handler).Handle
+//@   props C18
+//@   flags nopanic propagates-panics
+//@   requires h != nil && h.core != nil && 0 <= h.callerSkip && h.callerSkip <= 1 << 20
+//@   track CK = invoke zapcore.Core.Check
+//@   track TK = call internal/stacktrace.Take
+//@   track WR = call (*zapcore.CheckedEntry).Write
+//@   track AT = call (log/slog.Record).Attrs
+//@   ensures result == nil
+//@   ensures #CK == 1 && CK.recv[0] == old(h.core) && CK.arg1[0] == nil
+//@   ensures CK.arg0[0].Level == slogLevel(record.Level) && CK.arg0[0].Time == record.Time && CK.arg0[0].Message == record.Message && CK.arg0[0].LoggerName == old(h.name)
+//@   ensures CK.ret0[0] == nil ==> #WR == 0 && #TK == 0 && #AT == 0
+//@   ensures CK.ret0[0] != nil ==> #WR == 1 && WR.recv[0] == CK.ret0[0] && #AT == 1 && AT.ts[0] < WR.ts[0]
+//@   ensures #TK <= 1 && (#TK == 1 <==> (CK.ret0[0] != nil && record.Level >= old(h.addStackAt)))
+//@   ensures #TK == 1 ==> TK.arg0[0] == 3 + old(h.callerSkip) && TK.ts[0] < WR.ts[0]
